@@ -2096,3 +2096,46 @@ M("v12-quiet-or-shortcut-correct", "C01", "quiet", "src/circuit.rs",
         let xor = self.push_xor(x, y);""", "behaviour-preserving: the same shortcut written correctly (y ^ (x & !y) = x | y)")
 REVERT("revert-duplicate-struct-fields", "C17", "fire T13", "bded4e0", "pre-fix tree: duplicated struct fields accepted, missing-field check behind a length comparison")
 REVERT("revert-literal-mode-nodes", "C07", "fire F12", "39a66f1", "pre-fix tree: `[1; N]` and `S {a}` given to Literal::parse reach unreachable!() in into_literal")
+REVERT("revert-literal-whole-text", "C09", "fire L8", "6502ae9", "pre-fix tree: `1 2` accepted as the literal 1; `()` leaves its `)` in the stream")
+M("l9-unit-tuple-keeps-paren", "C09", "fire L9", "src/parse.rs",
+  """                    let tuple_end = self.expect(&TokenEnum::RightParen)?;
+                    let meta = join_meta(meta, tuple_end);
+                    Expr::untyped(ExprEnum::TupleLiteral(vec![]), meta)""",
+  """                    Expr::untyped(ExprEnum::TupleLiteral(vec![]), meta)""", "`()` does not consume its closing parenthesis: `((), 1)` cannot be parsed")
+M("l9-quiet-unit-tuple-advance", "C09", "quiet", "src/parse.rs",
+  """                    let tuple_end = self.expect(&TokenEnum::RightParen)?;
+                    let meta = join_meta(meta, tuple_end);
+                    Expr::untyped(ExprEnum::TupleLiteral(vec![]), meta)""",
+  """                    let tuple_end = self.next_matches(&TokenEnum::RightParen).unwrap_or(meta);
+                    let meta = join_meta(meta, tuple_end);
+                    Expr::untyped(ExprEnum::TupleLiteral(vec![]), meta)""", "behaviour-preserving: the peeked `)` is consumed with next_matches")
+M("l8-trailing-token-only-when-errors", "C09", "fire L8", "src/parse.rs",
+  """            match literal {
+                Ok(literal) if parser.errors.is_empty() => Ok(literal),
+                _ => Err(parser.errors),
+            }""",
+  """            match literal {
+                Ok(literal) => Ok(literal),
+                _ => Err(parser.errors),
+            }""", "the error recorded for a trailing token does not prevent Ok")
+M("l8-quiet-peek-form", "C09", "quiet", "src/parse.rs",
+  """            if literal.is_ok() {
+                // the whole text must be the literal
+                if let Some(Token(_, meta)) = parser.tokens.next() {
+                    parser.push_error(ParseErrorEnum::InvalidLiteral, meta);
+                }
+            }
+            match literal {
+                Ok(literal) if parser.errors.is_empty() => Ok(literal),
+                _ => Err(parser.errors),
+            }""",
+  """            match (literal, parser.tokens.peek()) {
+                (Ok(literal), None) if parser.errors.is_empty() => Ok(literal),
+                (Ok(_), Some(Token(_, meta))) => {
+                    let meta = *meta;
+                    parser.push_error(ParseErrorEnum::InvalidLiteral, meta);
+                    Err(parser.errors)
+                }
+                _ => Err(parser.errors),
+            }""", "behaviour-preserving: exhaustion asked with peek inside one match")
+
